@@ -26,6 +26,15 @@ def pName (s : String) : Option PName :=
   else if s.startsWith "p" then (s.drop 1).toNat?.map .plain
   else none
 
+/-- link property names: `s` (source), `t` (target) or a number -/
+def pLName (s : String) : Option LName :=
+  if s == "s" then some .source else if s == "t" then some .target else s.toNat?.map .other
+
+def showLName : LName → String
+  | .source => "s"
+  | .target => "t"
+  | .other n => toString n
+
 def pNats (s : String) : Option (List Nat) :=
   if s == "-" then some []
   else (s.splitOn ",").mapM (·.toNat?)
@@ -47,9 +56,9 @@ def parseDDL (ws : List String) : Option DDL :=
   | ["rq", i, b] => do pure (.setRequired (← i.toNat?) (← pBool b))
   | ["se", i, b] => do pure (.setExpr (← i.toNat?) (← pBool b))
   | ["re", i] => do pure (.resetExpr (← i.toNat?))
-  | ["al", i, lp, n, c] => do pure (.addLProp (← i.toNat?) ⟨← lp.toNat?, ← n.toNat?, ← pBool c⟩)
+  | ["al", i, lp, n, c] => do pure (.addLProp (← i.toNat?) ⟨← lp.toNat?, ← pLName n, ← pBool c⟩)
   | ["dl", i, lp] => do pure (.dropLProp (← i.toNat?) (← lp.toNat?))
-  | ["rl", i, lp, n] => do pure (.renameLProp (← i.toNat?) (← lp.toNat?) (← n.toNat?))
+  | ["rl", i, lp, n] => do pure (.renameLProp (← i.toNat?) (← lp.toNat?) (← pLName n))
   | ["cl", i, lp, b] => do pure (.setLPropComputed (← i.toNat?) (← lp.toNat?) (← pBool b))
   | _ => none
 
@@ -85,7 +94,7 @@ def showSchema (s : Schema) : String :=
   ";".intercalate (s.ptrs.map fun p =>
     let src := match p.src with | some t => toString t | none => "-"
     let k := match p.kind with | .link => "L" | .prop => "P"
-    let lps := ",".intercalate (p.lprops.map fun l => s!"{l.id}/{l.name}/{showB l.computed}")
+    let lps := ",".intercalate (p.lprops.map fun l => s!"{l.id}/{showLName l.name}/{showB l.computed}")
     s!"P{p.id}:{src}:{k}:{showName p.name}:{showB p.single}:{showB p.required}:{showB p.computed}:{lps}")
 
 def pSrcKind (s : String) : Option SrcKind :=
